@@ -19,6 +19,16 @@
   (`foreignMarks`, switched by `CelloGen.Thr.threadMarkUnguarded`, which is read from `Thread_Mark`, the `Mark` instance
   of `Thread` and the dispatch in `GC_Recurse`), and `Thread_Del` frees that table (`wrapperKilled`); the theorems that
   need it carry the hypothesis `Isolated` and are refuted without it, (c) the correspondence runs on real threads.
+
+  Variants of the model selected by `Cfg` switches that the translator reads from the source on every run (`cfgSrc`):
+  * `foreignMark` (CelloGen.Thr.threadMarkUnguarded; true for the current source).  The GUARDED variant
+    (`foreignMark := false`: `if (self is current(Thread)) { mark(t->tls, gc, f); }`) was commit 80c795e and was withdrawn
+    by commit 0a0ad73: in it non-interference needs only `KeepsWrappers` (`C13_noninterference_guarded_variant`), but an
+    object held only through the table of a Thread object that is not running is finalised while the table still holds
+    it (`C13_guarded_variant_loses_objects`).  KF-C13-mark-foreign-tls stays a known finding.
+  * `joinIgnoresDeadlk` (`joinIgnoresDeadlkOf CelloGen.Thr.joinErr`; false since commit 484991f,
+    `C13_join_repair_in_current_source`): in the OLD variant `Thread_Join` had no case for EDEADLK and
+    `join(current(Thread))` returned while the thread function was running (`C13_join_old_refuted`, was KF-C13-join-edeadlk).
 -/
 import CelloProofs.Lemmas.Thr
 import CelloProofs.Lemmas.ThrCounter
@@ -27,6 +37,34 @@ import CelloGen.Exn
 import CelloGen.Thr
 
 namespace Cello.Thr
+
+/-- the variant of the model that mirrors /repo's current source: every switch is read from the source by the translator
+    on every run; `scan` is the declaration (`Type_Scan`), any -/
+def cfgSrc (scan : Nat × Nat → Bool) : Cfg :=
+  { gcFirst := CelloGen.Thr.teardownGcFirst, consume := CelloGen.Exn.catchConsumes, maxDepth := CelloGen.Exn.maxDepth, scan := scan,
+    foreignMark := CelloGen.Thr.threadMarkUnguarded, joinIgnoresDeadlk := joinIgnoresDeadlkOf CelloGen.Thr.joinErr }
+
+/-- … with a concrete declaration, for the examples -/
+def cfgNow : Cfg := cfgSrc (fun k => k.1 = 1)
+
+/-- the current source written out (`Thread_Mark` walks the table of any Thread object: the value of
+    `CelloGen.Thr.threadMarkUnguarded` on the unchanged tree; `Thread_Join` raises for EDEADLK), so that the refutations below
+    do not depend on what the translator reads after a repair -/
+def cfgMark : Cfg :=
+  { gcFirst := true, consume := true, maxDepth := 2048, scan := fun _ => false, foreignMark := true, joinIgnoresDeadlk := false }
+
+/-- the GUARDED variant of `Thread_Mark` (commit 80c795e, withdrawn by 0a0ad73): only `current(Thread)`'s table is walked -/
+def cfgGuarded : Cfg := { cfgMark with foreignMark := false }
+
+/-- OLD variant of `Thread_Join` (before commit 484991f): no case for EDEADLK -/
+def cfgOldJoin : Cfg := { cfgMark with joinIgnoresDeadlk := true }
+
+/-- **The repair of `Thread_Join` is in /repo's current source**: the table extracted from `Thread_Join` has a case for
+    EDEADLK, so the variant `cfgSrc` is the repaired one.  Reverting commit 484991f makes this theorem fail. -/
+theorem C13_join_repair_in_current_source :
+    joinIgnoresDeadlkOf CelloGen.Thr.joinErr = false ∧ ∀ scan, (cfgSrc scan).joinIgnoresDeadlk = false := by
+  have h2 : joinIgnoresDeadlkOf CelloGen.Thr.joinErr = false := by decide
+  exact ⟨h2, fun _ => h2⟩
 
 /-- **Frame (writes).** Whatever one thread does — allocate, collect, throw, catch, set thread-local values, lock, join,
     make Thread objects — the component of every *other* thread `u` (its collector registry, exception record,
@@ -53,16 +91,19 @@ theorem C13_frame (cfg : Cfg) (g : G) (e : Ev) (u : Tid) (hu : e.tid ≠ u) :
       · left; rw [hthr]; have : u ≠ v := fun h => hvu h.symm
         simp [upd_other _ _ _ _ this]
     · left; rw [hg]
-  | join t w => left; rw [(step_sync_frame cfg g (.join t w) (by intros; simp) (by intros; simp)).1]
-  | lock t m => left; rw [(step_sync_frame cfg g (.lock t m) (by intros; simp) (by intros; simp)).1]
-  | trylock t m => left; rw [(step_sync_frame cfg g (.trylock t m) (by intros; simp) (by intros; simp)).1]
-  | unlock t m => left; rw [(step_sync_frame cfg g (.unlock t m) (by intros; simp) (by intros; simp)).1]
-  | winc t m c => left; rw [(step_sync_frame cfg g (.winc t m c) (by intros; simp) (by intros; simp)).1]
-  | ld t c => left; rw [(step_sync_frame cfg g (.ld t c) (by intros; simp) (by intros; simp)).1]
-  | st t c => left; rw [(step_sync_frame cfg g (.st t c) (by intros; simp) (by intros; simp)).1]
-  | rd t w => left; rw [(step_sync_frame cfg g (.rd t w) (by intros; simp) (by intros; simp)).1]
-  | bind t w => left; rw [(step_sync_frame cfg g (.bind t w) (by intros; simp) (by intros; simp)).1]
-  | rdo t w => left; rw [(step_sync_frame cfg g (.rdo t w) (by intros; simp) (by intros; simp)).1]
+  | join t w =>
+    left
+    have : u ≠ t := fun h => hu (by simp [Ev.tid, h])
+    exact step_join_other cfg g t w u this
+  | lock t m => left; rw [(step_sync_frame cfg g (.lock t m) (by intros; simp) (by intros; simp) (by intros; simp)).1]
+  | trylock t m => left; rw [(step_sync_frame cfg g (.trylock t m) (by intros; simp) (by intros; simp) (by intros; simp)).1]
+  | unlock t m => left; rw [(step_sync_frame cfg g (.unlock t m) (by intros; simp) (by intros; simp) (by intros; simp)).1]
+  | winc t m c => left; rw [(step_sync_frame cfg g (.winc t m c) (by intros; simp) (by intros; simp) (by intros; simp)).1]
+  | ld t c => left; rw [(step_sync_frame cfg g (.ld t c) (by intros; simp) (by intros; simp) (by intros; simp)).1]
+  | st t c => left; rw [(step_sync_frame cfg g (.st t c) (by intros; simp) (by intros; simp) (by intros; simp)).1]
+  | rd t w => left; rw [(step_sync_frame cfg g (.rd t w) (by intros; simp) (by intros; simp) (by intros; simp)).1]
+  | bind t w => left; rw [(step_sync_frame cfg g (.bind t w) (by intros; simp) (by intros; simp) (by intros; simp)).1]
+  | rdo t w => left; rw [(step_sync_frame cfg g (.rdo t w) (by intros; simp) (by intros; simp) (by intros; simp)).1]
 
 /-- **The shared class cache is transparent.** Whatever the cache contains (whatever other threads looked up before, in
     whatever order) a lookup returns the declared instance, and the cache keeps holding declared instances only. -/
@@ -99,16 +140,13 @@ theorem C13_noninterference_from_start (cfg : Cfg) (s : List Ev) (hiso : Isolate
     localOuts u (run cfg s G.init).2 = (solo cfg u (proj u (run cfg s G.init).2) [] (G.init.thr u)).2 :=
   C13_noninterference cfg s G.init (cacheOK_nil cfg) hiso u [] (cacheOK_nil cfg)
 
-/-- the full statement of the property's first sentence: non-interference for *every* schedule -/
+/-- the full statement of the property's first sentence: non-interference for *every* schedule of the contract — every
+    schedule in which no sweep frees the Thread object of a live thread (`KeepsWrappers`; anything else is undefined
+    behaviour, `Out.ub`: `Thread_Del` frees the running thread's table) -/
 def C13_noninterference_statement (cfg : Cfg) : Prop :=
-  ∀ (s : List Ev) (u : Tid),
+  ∀ (s : List Ev) (u : Tid), KeepsWrappers cfg s G.init = true →
     (run cfg s G.init).1.thr u = (solo cfg u (proj u (run cfg s G.init).2) [] (G.init.thr u)).1 ∧
     localOuts u (run cfg s G.init).2 = (solo cfg u (proj u (run cfg s G.init).2) [] (G.init.thr u)).2
-
-/-- the mark phase as it is in /repo (`Thread_Mark` walks the table of any Thread object; the value of
-    `CelloGen.Thr.threadMarkUnguarded` on the unchanged tree), written out so that the refutation below does not
-    depend on what the translator reads after a repair -/
-def cfgMark : Cfg := { gcFirst := true, consume := true, maxDepth := 2048, scan := fun _ => false, foreignMark := true }
 
 /-- the documented usage: main allocates an object, makes a Thread object `var x = new(Thread, f)`, calls it; the
     worker sets a thread-local value (here: to main's object); main, whose stack holds only `x`, collects -/
@@ -116,24 +154,26 @@ def witnessMark : List Ev :=
   [.loc 0 (.new 1 false false), .loc 0 (.new (thrBase + 1) false false), .bind 0 1, .spawn 0 1, .loc 1 .begin_,
    .loc 1 (.tset "a" ⟨0, 1⟩), .loc 0 (.collect [thrBase + 1])]
 
-/-- **Refuted without `Isolated` (KF-C13-mark-foreign-tls).** In `witnessMark` the outcome of *main's* collection
-    depends on what the *worker* put into its thread-local table: main's mark phase reaches `x`, `GC_Recurse` calls
+/-- **Refuted without `Isolated` (KF-C13-mark-foreign-tls).** In `witnessMark` (a schedule of the contract: main keeps
+    `x`) the outcome of *main's* collection depends on what the *worker* put into its thread-local table: main's mark phase reaches `x`, `GC_Recurse` calls
     `Thread_Mark(x)`, which walks the worker's table — main's object survives, whereas main alone finalises it.  So
     "whatever one thread does (set thread-local values) … each thread computes the same results as when it runs
     alone" fails.  In C the walk is, on top of that, an unsynchronised read of a table the worker is rewriting: main's
     `new` raises ValueError or reads freed memory (reproduced, TSan: Table_Mark vs Table_Rehash). -/
 theorem C13_noninterference_refuted : ¬ C13_noninterference_statement cfgMark := by
   intro h
-  have h0 := (h witnessMark 0).2
+  have h0 := (h witnessMark 0 (by decide)).2
   revert h0
   decide
 
 /-- the two outcomes side by side: in the schedule main's collection finalises nothing, alone it finalises object 0.1;
-    the schedule is not `Isolated`, and it is counted as a race (the walked table belongs to a running thread) -/
+    the schedule is not `Isolated` (it does keep every Thread object), and it is counted as a race (the walked table
+    belongs to a running thread) -/
 theorem C13_mark_foreign_tls_witness :
     (localOuts 0 (run cfgMark witnessMark G.init).2).map Out.show = ["ok", "ok", "fin=[] garbage=0"] ∧
     (solo cfgMark 0 (proj 0 (run cfgMark witnessMark G.init).2) [] (G.init.thr 0)).2.map Out.show = ["ok", "ok", "fin=[1] garbage=0"] ∧
-    Isolated cfgMark witnessMark G.init = false ∧ races cfgMark witnessMark G.init = 1 := by decide
+    Isolated cfgMark witnessMark G.init = false ∧ KeepsWrappers cfgMark witnessMark G.init = true ∧
+    races cfgMark witnessMark G.init = 1 := by decide
 
 /-- a schedule in which no Thread object is collector-managed (every `struct Thread` is `new_raw`, static, or the main
     wrapper: no `bind` event) is isolated: no mark phase ever meets a Thread object -/
@@ -159,6 +199,40 @@ theorem C13_schedule_independent (cfg : Cfg) (s1 s2 : List Ev) (u : Tid)
   have h2 := C13_noninterference_from_start cfg s2 h2 u
   rw [hp] at h1
   exact ⟨h1.1.trans h2.1.symm, h1.2.trans h2.2.symm⟩
+
+/-- **The guarded variant** (`Thread_Mark` walks only `current(Thread)`'s table: commit 80c795e, withdrawn by commit 0a0ad73;
+    `hfm`).  In it the full statement holds: for every schedule in which no sweep frees the Thread object of a live thread,
+    every thread's final component and outcomes are those of its solo run — whatever the other threads put into their
+    thread-local tables and whichever Thread objects its collections meet.  Why the repair was nevertheless withdrawn:
+    `C13_guarded_variant_loses_objects`. -/
+theorem C13_noninterference_guarded_variant (cfg : Cfg) (hfm : cfg.foreignMark = false) : C13_noninterference_statement cfg := by
+  intro s u hk
+  exact C13_noninterference_from_start cfg s (isolated_of_keeps cfg hfm s G.init hk) u
+
+/-- a worker is handed one of main's objects through its thread-local table, finishes and is joined; main, which holds
+    `x = new(Thread, f)` and nothing else, collects; the Thread object is called again and reads the entry -/
+def witnessHeld : List Ev :=
+  [.loc 0 (.new 1 false false), .loc 0 (.new (thrBase + 1) false false), .bind 0 1, .spawn 0 1, .loc 1 .begin_,
+   .loc 1 (.tset "a" ⟨0, 1⟩), .loc 1 .end_, .join 0 1, .loc 0 (.collect [thrBase + 1]), .spawn 0 1, .loc 1 .begin_,
+   .loc 1 (.tget "a")]
+
+/-- **The regression of the guarded variant (why commit 0a0ad73 withdrew 80c795e).** An object that is held only through
+    the thread-local table of a Thread object that is *not running* — here: thread 1 has finished and been joined, its
+    table (which lives as long as the Thread object `x` main holds) still refers to main's object 0.1 — is kept alive by
+    main's mark phase in the current source (`Thread_Mark(x)` presents the table), and is **finalised while the table
+    still holds it** in the guarded variant: when `x` is called again the entry read back is a dangling pointer.
+    (The model has no operation for `set(x, key, obj)` by the holder of a Thread object other than `current(Thread)` —
+    data handed to a thread before it is called; this schedule has the same heap shape: the only reference to the
+    object is in the table of a Thread object that is not `current(Thread)` of any running thread.) -/
+theorem C13_guarded_variant_loses_objects :
+    -- the current source: nothing is finalised, the entry read back is live
+    ((run cfgMark witnessHeld G.init).1.thr 0).fin = [] ∧
+    (step cfgMark (run cfgMark (witnessHeld.take 11) G.init).1 (.loc 1 (.tget "a"))).2 = .val ⟨0, 1⟩ ∧
+    -- the guarded variant: main's collection finalises 0.1 although thread 1's table refers to it; the entry dangles
+    ((run cfgGuarded (witnessHeld.take 9) G.init).1.thr 1).tls = [("a", ⟨0, 1⟩)] ∧
+    ((run cfgGuarded (witnessHeld.take 9) G.init).1.thr 0).fin = [⟨0, 1⟩] ∧
+    (step cfgGuarded (run cfgGuarded (witnessHeld.take 11) G.init).1 (.loc 1 (.tget "a"))).2 = .val ⟨0, 1⟩ ∧
+    KeepsWrappers cfgGuarded witnessHeld G.init = true ∧ KeepsWrappers cfgMark witnessHeld G.init = true := by decide
 
 /-- **C13 Mutex.** At every point of every schedule (`s1` is the part executed so far, `s2` any continuation) in which
     no pthread primitive ran into undefined behaviour: for every Mutex `m`, the threads that are inside a section of `m`
@@ -231,31 +305,58 @@ def C13_join_statement (cfg : Cfg) : Prop :=
     ((step cfg (run cfg s G.init).1 (.join t u)).2 = .joined ∨ (step cfg (run cfg s G.init).1 (.join t u)).2 = .early) →
     ((run cfg s G.init).1.thr u).phase = .done
 
-/-- **Refuted (KF-C13-join-edeadlk).** `join(current(Thread))`: `pthread_join` of the calling thread reports EDEADLK,
-    `Thread_Join` raises only for EINVAL and ESRCH (`C13_join_edeadlk_ignored`), so it returns at once — while the
-    thread's function is running (the caller is executing it). -/
-theorem C13_join_refuted (cfg : Cfg) : ¬ C13_join_statement cfg := by
-  intro h
-  have := h [] 0 0 (Or.inr (by simp [run, step, running, G.init, TS.main, wrapperGone]))
-  simp [run, G.init, TS.main] at this
-
-/-- `join` of the calling thread itself: returns at once (`early`), nothing changes -/
-theorem C13_join_self_returns_early (cfg : Cfg) (g : G) (t : Tid) (hr : running g t = true) (hw : wrapperGone g t = false) :
-    step cfg g (.join t t) = (g, .early) := by
-  simp [step, hr, hw]
-
-/-- **C13 join, partial: every join of *another* thread.** When `t ≠ u`, `join u` by `t` returns only as `joined` —
-    then `u` has finished — or as `nothread` (the Thread object was never called: there is no function to wait for).
-    Missing for the full statement: self-joins (refuted above); mutual joins are outside the model (a blocked `join` is
-    an event that does not happen; where the pthread implementation reports EDEADLK for them, `perr join EDEADLK` shows
-    `Thread_Join` returning normally — glibc 2.36 in this sandbox deadlocks instead). -/
-theorem C13_join_partial (cfg : Cfg) (s : List Ev) (t u : Tid) (htu : t ≠ u) :
+/-- **C13 join, every join** (was `C13_join_partial`, which excluded self-joins).  With `Thread_Join` raising for EDEADLK
+    (`hj`; the current source: `C13_join_repair_in_current_source`), `join u` by any thread `t` — `t = u` included — never
+    returns `early`, and returns `joined` only when `u` has finished; the remaining outcomes are `nothread` (the Thread
+    object was never called: there is no function to wait for), an exception (`raised`: the caller joined itself), and
+    the events that do not happen (`blocked`, `dead`) or are undefined (`ub`).
+    Mutual joins are outside the model (a blocked `join` is an event that does not happen; where the pthread
+    implementation reports EDEADLK for them, `perr join EDEADLK` shows `Thread_Join` raising — glibc 2.36 in this sandbox
+    deadlocks instead). -/
+theorem C13_join_full (cfg : Cfg) (hj : cfg.joinIgnoresDeadlk = false) (s : List Ev) (t u : Tid) :
     (step cfg (run cfg s G.init).1 (.join t u)).2 ≠ .early ∧
     ((step cfg (run cfg s G.init).1 (.join t u)).2 = .joined → ((run cfg s G.init).1.thr u).phase = .done) := by
-  refine ⟨?_, fun hj => (step_join_joined cfg _ t u hj).1⟩
-  simp only [step]
+  refine ⟨?_, fun h => (step_join_joined cfg _ t u h).1⟩
+  have hx : joinTrOf cfg .edeadlk = some .resourceError := by simp [joinTrOf, hj, joinTr]
+  simp only [step, hx]
   repeat' split
   all_goals simp_all
+
+/-- **The full statement holds of every variant in which `Thread_Join` raises for EDEADLK** … -/
+theorem C13_join_statement_holds (cfg : Cfg) (hj : cfg.joinIgnoresDeadlk = false) : C13_join_statement cfg := by
+  intro s t u h
+  rcases h with h | h
+  · exact (C13_join_full cfg hj s t u).2 h
+  · exact absurd h (C13_join_full cfg hj s t u).1
+
+/-- … **and so of /repo's current source** (was refuted before commit 484991f) -/
+theorem C13_join_current_source (scan : Nat × Nat → Bool) : C13_join_statement (cfgSrc scan) :=
+  C13_join_statement_holds (cfgSrc scan) (C13_join_repair_in_current_source.2 scan)
+
+/-- **OLD variant refuted (was KF-C13-join-edeadlk, repaired by commit 484991f).** `join(current(Thread))`: `pthread_join` of
+    the calling thread reports EDEADLK, `Thread_Join` raised only for EINVAL and ESRCH (`C13_join_edeadlk_old_ignored`), so
+    it returned at once — while the thread's function is running (the caller is executing it). -/
+theorem C13_join_old_refuted (cfg : Cfg) (hj : cfg.joinIgnoresDeadlk = true) : ¬ C13_join_statement cfg := by
+  intro h
+  have := h [] 0 0 (Or.inr (by simp [run, step, running, G.init, TS.main, wrapperGone, joinTrOf, hj, joinTrOld]))
+  simp [run, G.init, TS.main] at this
+
+/-- `join` of the calling thread itself raises ResourceError: the caller's exception record takes it, nothing else in the
+    process changes (for the calling thread it is the local event "`pthread_join` failed with EDEADLK") -/
+theorem C13_join_self_raises (cfg : Cfg) (hj : cfg.joinIgnoresDeadlk = false) (g : G) (t : Tid) (hr : running g t = true)
+    (hw : wrapperGone g t = false) :
+    step cfg g (.join t t) =
+      ({ g with thr := upd g.thr t { g.thr t with exc := caught .resourceError (g.thr t).exc } }, .raised .resourceError) ∧
+    (lstep cfg t g.cache [] (.perr .join .edeadlk) (g.thr t)).1 = { g.thr t with exc := caught .resourceError (g.thr t).exc } := by
+  have hx : joinTrOf cfg .edeadlk = some .resourceError := by simp [joinTrOf, hj, joinTr]
+  refine ⟨by simp [step, hr, hw, hx], ?_⟩
+  rw [lstep_perr_join cfg t g.cache [] (g.thr t) (by simpa [running] using hr) _ hx]
+
+/-- OLD variant: `join` of the calling thread itself returned at once (`early`), nothing changed -/
+theorem C13_join_self_old_returns_early (cfg : Cfg) (hj : cfg.joinIgnoresDeadlk = true) (g : G) (t : Tid)
+    (hr : running g t = true) (hw : wrapperGone g t = false) :
+    step cfg g (.join t t) = (g, .early) := by
+  simp [step, hr, hw, joinTrOf, hj, joinTrOld]
 
 /-- **join publishes (values).** After `join u` has returned, every read of `u`'s published cell — by any thread, at
     any later point of any continuation (until the Thread object is called again) — yields the value `u` had written
@@ -310,9 +411,10 @@ def C13_join_publishes_statement (cfg : Cfg) : Prop :=
 def witnessResult : List Ev :=
   [.spawn 0 1, .loc 1 .begin_, .loc 1 (.new 1 false false), .loc 1 (.pubo ⟨1, 1⟩), .loc 1 .end_]
 
-/-- **Refuted (KF-C13-join-result-finalised).** The worker's teardown (`del_raw(gc)` in `Thread_Init_Run`: a sweep with
-    nothing marked) finalises the object before `pthread_join` can return: what the joiner holds is a dangling pointer
-    (in C: `deref(out)` → ValueError "bad magic number … already deallocated" / heap-use-after-free; reproduced). -/
+/-- **Refuted (KF-C13-join-result-finalised).** The worker's teardown (`del_raw(gc)` in
+    `Thread_Init_Run`: a sweep with nothing marked) finalises the object before `pthread_join` can return: what the joiner
+    holds is a dangling pointer (in C: `deref(out)` → ValueError "bad magic number … already deallocated" /
+    heap-use-after-free; reproduced). -/
 theorem C13_join_publishes_object_refuted : ¬ C13_join_publishes_statement cfgMark := by
   intro h
   have := h witnessResult [.rdo 0 1] 0 1 ⟨1, 1⟩ (by decide)
@@ -369,7 +471,7 @@ theorem C13_teardown_order_current_source : CelloGen.Thr.teardownGcFirst = true 
 /-- The order before commit 7de4bbc (exception record first) is refuted by a concrete schedule: a worker allocates one
     object whose destructor does try/throw/catch and returns — the teardown sweep finds no exception record. -/
 theorem C13_teardown_old_order_refuted :
-    let old : Cfg := { gcFirst := false, consume := true, maxDepth := 2048, scan := fun _ => false, foreignMark := true }
+    let old : Cfg := { cfgMark with gcFirst := false }
     ((run old [.spawn 0 1, .loc 1 .begin_, .loc 1 (.new 1 false true), .loc 1 .end_] G.init).2.map (fun eo => eo.2.show))
       = ["spawned", "begun depth=0 gc=1 exc=1", "ok", "crash"] := by decide
 
@@ -403,16 +505,17 @@ theorem C13_foreign_del (cfg : Cfg) (s : List Ev) (t : Tid) (o : Obj) (ho : o.ow
   simpa using (key _).2
 
 /-- **Exceptions are per thread.** In any process state, an exception program run by thread `t` (inside the object domain
-    of C07, catch filters duplicate-free; `t`'s record has no pending exception and room for the program's nesting)
+    of C07 — catch filters are arbitrary lists since fix a0ef2da; `t`'s record has no pending exception and room for the
+    program's nesting)
     produces exactly the trace of the structured-exception reference semantics (C07) — whatever the other threads'
     exception records contain — and touches no other thread. -/
 theorem C13_exn_isolated (cfg : Cfg) (hcons : cfg.consume = true) (g : G) (t : Tid) (p : Exn.Prog) (s0 : Exn.St)
     (hr : (g.thr t).phase = .running) (he : (g.thr t).exc = some s0) (ha : s0.active = false)
-    (hn : s0.depth + Exn.nest p ≤ cfg.maxDepth) (hdom : Exn.inDomain p = true) (hnd : Exn.nodupFilters p = true) :
+    (hn : s0.depth + Exn.nest p ≤ cfg.maxDepth) (hdom : Exn.inDomain p = true) :
     (∃ sg d, (step cfg g (.loc t (.exn p))).2 = .exn (Exn.eval p topBound).1 sg d ∧ d = s0.depth ∧
        (sg = .normal ↔ (Exn.eval p topBound).2 = none)) ∧
     ∀ u, u ≠ t → (step cfg g (.loc t (.exn p))).1.thr u = g.thr u := by
-  have hC := Exn.C07_machine_refines_reference cfg.maxDepth p topBound s0 ha hn (by decide) hdom hnd
+  have hC := Exn.C07_machine_refines_reference cfg.maxDepth p topBound s0 ha hn (by decide) hdom
   refine ⟨?_, fun u hu => step_loc_other cfg g t (.exn p) u hu⟩
   have hk : wrapperKilled g t (lstep cfg t g.cache (foreignMarks cfg g t (.exn p)) (.exn p) (g.thr t)).1 = false :=
     wrapperKilled_gc g t _ (by simp [lstep, lrun, hr, he])
@@ -431,7 +534,7 @@ theorem C13_exn_isolated (cfg : Cfg) (hcons : cfg.consume = true) (g : G) (t : T
 /-! ### the pthread error translation is as documented -/
 
 /-- `Mutex_Lock`, `Mutex_Trylock`, `Mutex_Unlock`, `Thread_Join`: success is success, EBUSY of trylock is `false`, and
-    the only error codes that raise are EINVAL (ValueError), EDEADLK on lock (ResourceError), EPERM on unlock
+    the only error codes that raise are EINVAL (ValueError), EDEADLK on lock and on join (ResourceError), EPERM on unlock
     (ResourceError) and ESRCH on join (ValueError) -/
 theorem C13_error_translation :
     lockTr .zero = none ∧ unlockTr .zero = none ∧ joinTr .zero = none ∧ trylockTr .zero = .ok true ∧
@@ -439,18 +542,30 @@ theorem C13_error_translation :
     lockTr .einval = some .valueError ∧ lockTr .edeadlk = some .resourceError ∧
     trylockTr .einval = .error .valueError ∧
     unlockTr .einval = some .valueError ∧ unlockTr .eperm = some .resourceError ∧
-    joinTr .einval = some .valueError ∧ joinTr .esrch = some .valueError :=
-  ⟨rfl, rfl, rfl, rfl, rfl, rfl, rfl, rfl, rfl, rfl, rfl, rfl⟩
+    joinTr .einval = some .valueError ∧ joinTr .esrch = some .valueError ∧ joinTr .edeadlk = some .resourceError :=
+  ⟨rfl, rfl, rfl, rfl, rfl, rfl, rfl, rfl, rfl, rfl, rfl, rfl, rfl⟩
 
-/-- `Thread_Join` has no case for EDEADLK — neither in the model nor in the table extracted from the current source:
-    a `pthread_join` that reports a deadlock (the caller joins itself) makes `join` return normally -/
-theorem C13_join_edeadlk_ignored :
-    joinTr .edeadlk = none ∧ tableTr CelloGen.Thr.joinErr .edeadlk = none ∧
-    ∀ (c : Cache) (fm : List Obj) (ts : TS), ts.phase = .running →
-      (lstep cfgMark 0 c fm (.perr .join .edeadlk) ts).2.2 = .ok := by
+/-- `Thread_Join` raises ResourceError for EDEADLK — in the model, in the table extracted from the current source, and
+    as a local event of a running thread in the variant of the current source: a `pthread_join` that reports a deadlock
+    (the caller joins itself) does not return normally -/
+theorem C13_join_edeadlk_raises :
+    joinTr .edeadlk = some .resourceError ∧ tableTr CelloGen.Thr.joinErr .edeadlk = some .resourceError ∧
+    ∀ (scan : Nat × Nat → Bool) (c : Cache) (fm : List Obj) (ts : TS), ts.phase = .running →
+      (lstep (cfgSrc scan) 0 c fm (.perr .join .edeadlk) ts).2.2 = .raised .resourceError := by
   refine ⟨rfl, by decide, ?_⟩
+  intro scan c fm ts hr
+  have hx : joinTrOf (cfgSrc scan) .edeadlk = some .resourceError := by
+    simp [joinTrOf, (C13_join_repair_in_current_source.2 scan), joinTr]
+  rw [lstep_perr_join (cfgSrc scan) 0 c fm ts hr _ hx]
+
+/-- OLD variant: `Thread_Join` had no case for EDEADLK: a `pthread_join` that reported a deadlock made `join` return normally -/
+theorem C13_join_edeadlk_old_ignored :
+    joinTrOld .edeadlk = none ∧
+    ∀ (c : Cache) (fm : List Obj) (ts : TS), ts.phase = .running →
+      (lstep cfgOldJoin 0 c fm (.perr .join .edeadlk) ts).2.2 = .ok := by
+  refine ⟨rfl, ?_⟩
   intro c fm ts hr
-  simp [lstep, lrun, hr, joinTr]
+  simp [lstep, lrun, hr, joinTrOf, cfgOldJoin, cfgMark, joinTrOld]
 
 /-! ### the model is about the source as it is now (regenerated from /repo on every run) -/
 
@@ -463,7 +578,8 @@ theorem C13_source_shape_as_modelled : CelloGen.Thr.shape = CelloGen.Thr.shapeMo
   rfl
 
 /-- the model's translation of pthread error codes is the one extracted from `Mutex_Lock`, `Mutex_Trylock`,
-    `Mutex_Unlock`, `Thread_Join` and `Thread_Call` in the current source, for every error code -/
+    `Mutex_Unlock`, `Thread_Join` and `Thread_Call` in the current source, for every error code (EDEADLK of `Thread_Join`
+    included: reverting commit 484991f breaks this theorem at `joinTr .edeadlk`) -/
 theorem C13_error_translation_current_source (e : Errno) :
     lockTr e = tableTr CelloGen.Thr.lockErr e ∧ unlockTr e = tableTr CelloGen.Thr.unlockErr e ∧
     joinTr e = tableTr CelloGen.Thr.joinErr e ∧ createTr e = tableTr CelloGen.Thr.createErr e ∧
@@ -471,9 +587,6 @@ theorem C13_error_translation_current_source (e : Errno) :
   cases e <;> exact ⟨by decide, by decide, by decide, by decide, by rfl⟩
 
 /-! ### non-vacuity: concrete schedules meet the hypotheses and exercise the interesting branches -/
-
-def cfgNow : Cfg := { gcFirst := CelloGen.Thr.teardownGcFirst, consume := CelloGen.Exn.catchConsumes, maxDepth := CelloGen.Exn.maxDepth, scan := fun k => k.1 = 1,
-                      foreignMark := CelloGen.Thr.threadMarkUnguarded }
 
 /-- two workers contend for Mutex 0: the second `lock` is blocked, the `trylock` fails, after the release the second
     thread gets in; no UB; thread 1 is inside exactly between its acquisition and its release -/
@@ -519,12 +632,12 @@ example :
       = ["spawned", "begun depth=0 gc=1 exc=1", "ok", "ok", "ok", "fin=[1] garbage=0", "bad", "joined", "spawned", "blocked",
          "begun depth=0 gc=1 exc=1", "val=1.2", "fin=0", "ok", "fin=[1,3] garbage=0", "joined", "ub"] := by decide
 
-/-- the hypotheses of `C13_exn_isolated` hold for a running thread and a nested program -/
+/-- the hypotheses of `C13_exn_isolated` hold for a running thread and a nested program (one filter names an object twice) -/
 example :
     let g := (run cfgNow [.spawn 0 1, .loc 1 .begin_, .loc 0 (.exn (.tryCatch (.throw 3) [] (.stmt 1)))] G.init).1
-    let p : Exn.Prog := .tryCatch (.tryCatch (.throw 1) [2] (.stmt 5)) [1] (.stmt 6)
+    let p : Exn.Prog := .tryCatch (.tryCatch (.throw 1) [2, 2] (.stmt 5)) [1] (.stmt 6)
     (g.thr 1).phase = .running ∧ (g.thr 1).exc = some Exn.St.init ∧ cfgNow.consume = true ∧
-    Exn.St.init.depth + Exn.nest p ≤ cfgNow.maxDepth ∧ Exn.inDomain p = true ∧ Exn.nodupFilters p = true := by decide
+    Exn.St.init.depth + Exn.nest p ≤ cfgNow.maxDepth ∧ Exn.inDomain p = true := by decide
 
 /-- **`Isolated` is met by the documented usage** `var x = new(Thread, f); call(x); … join(x);` when the worker sets
     no thread-local values and the creator does not collect between `call` and `join`: main makes the Thread object,
@@ -555,12 +668,12 @@ example :
     (localOuts 0 (run cfgMark s G.init).2).map Out.show = ["ok", "ok", "fin=[] garbage=0"] ∧
     (solo cfgMark 0 (proj 0 (run cfgMark s G.init).2) [] TS.main).2.map Out.show = ["ok", "ok", "fin=[1] garbage=0"] := by decide
 
-/-- **the proposed repair in the model.** With `Thread_Mark` marking only `current(Thread)`'s table
-    (`foreignMark := false`) the refuting schedule is isolated and main's outcomes are those of its solo run -/
+/-- **the guarded variant in the model** (commit 80c795e, withdrawn by 0a0ad73). With `Thread_Mark` marking only
+    `current(Thread)`'s table (`foreignMark := false`) the refuting schedule is isolated and main's outcomes are those of
+    its solo run (`C13_noninterference_guarded_variant`); the price is `C13_guarded_variant_loses_objects` -/
 example :
-    let fixed : Cfg := { cfgMark with foreignMark := false }
-    Isolated fixed witnessMark G.init = true ∧
-    localOuts 0 (run fixed witnessMark G.init).2 = (solo fixed 0 (proj 0 (run fixed witnessMark G.init).2) [] TS.main).2 := by
+    cfgGuarded.foreignMark = false ∧ Isolated cfgGuarded witnessMark G.init = true ∧ KeepsWrappers cfgGuarded witnessMark G.init = true ∧
+    localOuts 0 (run cfgGuarded witnessMark G.init).2 = (solo cfgGuarded 0 (proj 0 (run cfgGuarded witnessMark G.init).2) [] TS.main).2 := by
   decide
 
 /-- the sweep that would free the Thread object of a live thread is not executed (`ub`): a worker makes and calls a
@@ -578,13 +691,22 @@ example :
     (g.thr 1).phase = .running ∧ (step cfgMark g (.loc 1 .end_)).2 ≠ .ub := by decide
 
 /-- `C13_join_publishes_own_object`, both sides: a result made with `new` dangles after the join, one made with
-    `new_root` is live; the self-join returns `early` -/
+    `new_root` is live; the self-join raises ResourceError (OLD variant: returned `early`), the worker carries on and the
+    outcomes of the worker — the exception included — are those of its solo run; the hypotheses of `C13_join_self_raises` -/
 example :
-    ((run cfgMark (witnessResult ++ [.join 0 1, .rdo 0 1, .rdo 0 2]) G.init).2.map (fun eo => eo.2.show)).drop 5
+    let s : List Ev := [.spawn 0 1, .loc 1 .begin_, .loc 1 (.new 2 true false), .loc 1 (.pubo ⟨1, 2⟩), .join 1 1, .loc 1 .end_,
+                   .join 0 1, .rdo 0 1]
+    ((run cfgNow (witnessResult ++ [.join 0 1, .rdo 0 1, .rdo 0 2]) G.init).2.map (fun eo => eo.2.show)).drop 5
       = ["joined", "dangling=1.1", "noval"] ∧
-    ((run cfgMark [.spawn 0 1, .loc 1 .begin_, .loc 1 (.new 2 true false), .loc 1 (.pubo ⟨1, 2⟩), .join 1 1, .loc 1 .end_,
-                   .join 0 1, .rdo 0 1] G.init).2.map (fun eo => eo.2.show))
-      = ["spawned", "begun depth=0 gc=1 exc=1", "ok", "ok", "early", "fin=[] garbage=0", "joined", "val=1.2"] := by decide
+    ((run cfgNow s G.init).2.map (fun eo => eo.2.show))
+      = ["spawned", "begun depth=0 gc=1 exc=1", "ok", "ok", "ResourceError", "fin=[] garbage=0", "joined", "val=1.2"] ∧
+    ((run cfgOldJoin s G.init).2.map (fun eo => eo.2.show))
+      = ["spawned", "begun depth=0 gc=1 exc=1", "ok", "ok", "early", "fin=[] garbage=0", "joined", "val=1.2"] ∧
+    (localOuts 1 (run cfgNow s G.init).2).map Out.show = ["begun depth=0 gc=1 exc=1", "ok", "ok", "ResourceError", "fin=[] garbage=0"] ∧
+    Isolated cfgNow s G.init = true ∧
+    localOuts 1 (run cfgNow s G.init).2 = (solo cfgNow 1 (proj 1 (run cfgNow s G.init).2) [] TS.unborn).2 ∧
+    cfgNow.joinIgnoresDeadlk = false ∧
+    running (run cfgNow (s.take 4) G.init).1 1 = true ∧ wrapperGone (run cfgNow (s.take 4) G.init).1 1 = false := by decide
 
 /-
   PARTIAL — what these theorems do not say (and the harness covers by running real threads under schedule noise):
@@ -595,8 +717,11 @@ example :
   refutes non-interference), whereas in C it is a data race with the owner's `Table_Set` / `Table_Rem` / rehash
   (`races` counts the steps where it would be one; the harness keeps free-running schedules at `races = 0` and runs the
   witness in a forked child).  Known findings, each with its full statement kept as a `def …_statement` and refuted:
-  KF-C13-mark-foreign-tls (`C13_noninterference_refuted`), KF-C13-join-result-finalised
-  (`C13_join_publishes_object_refuted`), KF-C13-join-edeadlk (`C13_join_refuted`).  Not modelled: Thread objects as
+  KF-C13-mark-foreign-tls (`C13_noninterference_refuted`; the guarded variant of commit 80c795e, in which the statement
+  holds, was withdrawn by commit 0a0ad73: `C13_guarded_variant_loses_objects`), KF-C13-join-result-finalised
+  (`C13_join_publishes_object_refuted`).  Repaired by commit 484991f and kept as an OLD variant with its witness:
+  KF-C13-join-edeadlk (`C13_join_old_refuted`; full statement `C13_join_current_source`).  Not modelled: `set` on a Thread
+  object other than `current(Thread)` (data handed to a thread before it is called), Thread objects as
   thread-local values, `Thread_Assign` (copies another thread's table), arguments handed to a thread (`Thread_Call`
   stores a raw copy of the tuple; the objects it refers to are not marked by anybody), mutual joins.
 -/
